@@ -110,6 +110,16 @@ def fp_contexts(exe):
     return res
 
 
+def fb_lines(rng, exe, tier):
+    """fb_rand under the binary field the build is configured for (RLC_FB_BITS is a compile-time constant; asked from the library)"""
+    import subprocess
+    l = subprocess.run([exe], input="fb_rand_ctx\n", stdout=subprocess.PIPE, stderr=subprocess.DEVNULL, text=True, timeout=60).stdout.strip()
+    if not l.startswith("bits="):
+        return []
+    kv = dict(t.split("=") for t in l.split())
+    return ["fb_rand %s %s %s" % (rng.bytes(1 + rng.below(16)).hex(), kv["bits"], kv["digs"]) for _ in range(40 if tier == "quick" else 1000)]
+
+
 def fp_lines(rng, ctxs, tier):
     """fp_rand for every supported prime: primes far below 2^bits (the subtraction loop runs for a large share of the draws) and primes
     just below 2^bits (it practically never runs)"""
@@ -136,6 +146,7 @@ def streams(ctx, scale=1):
     for _ in range(scale):
         lines += gen_lines(ctx.rng, kv["w"], kv["size"], ctx.tier)
         lines += fp_lines(ctx.rng, fctx, ctx.tier)
+        lines += fb_lines(ctx.rng, exe, ctx.tier)
     res = [{"name": "drbg-base", "cfg": "base", "exe": exe, "lines": lines}]
     # a field whose bit length is not a multiple of the digit size (the top-digit mask of fp_rand)
     exe2 = ctx.oracle("p255", defs=("ORACLE_MD",), sources=("oracle.c", "ops_bn.c", "ops_md.c"), tag="_md")
